@@ -138,7 +138,10 @@ Step ==
         /\ tx'  = IF TxEnd(e.ev)  THEN {} ELSE tx \cup {e.ev} \cup (IF "forced" \in DOMAIN e THEN {"ForcedOffline"} ELSE {})
         /\ blk' = IF BlkEnd(e.ev) THEN {} ELSE blk \cup {e.ev}
         /\ unc' = IF UncEnd(e.ev) THEN {} ELSE unc \cup {e.ev}
-        /\ IF "obs" \notin DOMAIN e
+        /\ IF "blind" \in DOMAIN e
+           THEN \* the driver was told not to read the state after this operation (reads fill lazy caches): nothing to judge
+                UNCHANGED <<bad, gone, prev, viol, fired>>
+           ELSE IF "obs" \notin DOMAIN e
            THEN \* the operation or a getter panicked: nothing can be read any more (the driver ends the behaviour here)
                 /\ viol' = viol \cup Fresh({ <<"Readable", Disc(e, <<"Readable", "state">>), l>> })
                 /\ fired' = [fired EXCEPT !.Failures = @ + 1]
